@@ -60,7 +60,12 @@ func (s *ScanMethod) ProcessPacketData(data []byte, _ *gopacket.CaptureInfo) err
 	if err := s.parser.DecodeLayers(data, &s.rcvDecoded); err != nil {
 		return err
 	}
-	if len(s.rcvDecoded) != 2 {
+	if len(s.rcvDecoded) != 2 || s.rcvDecoded[1] != layers.LayerTypeARP {
+		return nil
+	}
+	// only ARP for IPv4 over Ethernet carries a 6-byte MAC and a 4-byte IP address
+	if s.rcvARP.AddrType != layers.LinkTypeEthernet || s.rcvARP.Protocol != layers.EthernetTypeIPv4 ||
+		s.rcvARP.HwAddressSize != 6 || s.rcvARP.ProtAddressSize != 4 {
 		return nil
 	}
 
